@@ -197,6 +197,18 @@ def subterms(t):
         yield from subterms(t[1])
 
 
+def unique_subterms(t):
+    """Sub-terms without repetition, smallest first (terms may hold unhashable values)."""
+    seen, out = set(), []
+    for st in subterms(t):
+        r = repr(st)
+        if r not in seen:
+            seen.add(r)
+            out.append(st)
+    out.sort(key=lambda x: (size(x), repr(x)))
+    return out
+
+
 def depth(t):
     k = t[0]
     subs = []
